@@ -72,6 +72,25 @@ def showRes (hex : Nat → String) : Res → String
 def showRun (rs : List Res) : String :=
   if rs.isEmpty then "ok" else "ok " ++ " ".intercalate (rs.map (showRes showHex))
 
+/-- internal iteration after a prefix of calls: `fold` / `for_each` / `sum` are `next()` until `None`, `rfold` /
+    `rev()` are `next_back()` until `None` (std's provided methods).  The run is extended by enough such calls and cut
+    at the first `None` of the extension; `kind` = F (items front to back), R (items back to front), S (their sum). -/
+def runInternal (run : List Call → List Res) (cs : List Call) (n : Nat) (kind : String) : Option String :=
+  let kind := if kind == "V" then "R" else if kind == "E" then "F" else kind     -- rev().collect() / for_each
+  let step : Call := if kind == "R" then Call.nextBack else Call.next
+  let rs := run (cs ++ List.replicate (n + 2) step)
+  let pre := rs.take cs.length
+  let ext := (rs.drop cs.length).takeWhile (fun r => match r with | Res.item (some _) => true | _ => false)
+  if pre.length != cs.length then none else
+  let shown := pre.map (showRes showHex)
+  if kind == "S" then
+    let tot := ext.foldl (fun acc r => match r with | Res.item (some v) => acc + v | _ => acc) 0
+    some ("ok " ++ " ".intercalate (shown ++ ["sum:" ++ showHex (tot % 18446744073709551616)]))
+  else
+    some ("ok " ++ " ".intercalate (shown ++ [";"] ++ ext.map (showRes showHex)))
+
+def noTerminal (cs : List Call) : Bool := cs.all (fun c => match c with | Call.last | Call.count => false | _ => true)
+
 def handle (op : String) (args : List String) : Option (String × String) :=
   match op, args with
   | "u.to_bytes_le", [a] | "u.to_le_bytes", [a] => do
@@ -142,6 +161,18 @@ def handle (op : String) (args : List String) : Option (String × String) :=
   | "i.assign_from_slice", [old, s, w] => do
     let old ← parseBigInt old; let s ← parseSignTok s; let w ← parseWords w
     pure (si (iassignFromSlice old s w), si (.ok (BigInt.ofInt (signedVal s (valBase W w)))))
+  | "iter32x", [a, cs, kind] => do
+    let a ← parseLimbs a; let cs ← parseCalls cs
+    if !noTerminal cs then none else
+    let m ← runInternal (fun c => run32 c (U32Digits.new a)) cs (2 * a.length) kind
+    let o ← runInternal (fun c => specRun c (digitsBase W (val a))) cs (2 * a.length) kind
+    pure (m, o)
+  | "iter64x", [a, cs, kind] => do
+    let a ← parseLimbs a; let cs ← parseCalls cs
+    if !noTerminal cs then none else
+    let m ← runInternal (fun c => run64 c (U64Digits.new a)) cs a.length kind
+    let o ← runInternal (fun c => specRun c (digitsBase B (val a))) cs a.length kind
+    pure (m, o)
   | "iter32", [a, cs] => do
     let a ← parseLimbs a; let cs ← parseCalls cs
     pure (showRun (run32 cs (U32Digits.new a)), showRun (specRun cs (digitsBase W (val a))))
